@@ -33,6 +33,11 @@ def translate(ctx):
     return json.load(open(js))
 
 
+def pregen(ctx):
+    """setup: a clean Coq build needs gen/FlowGraph.v"""
+    translate(ctx)
+
+
 def probe(ctx, seeds):
     hb = C.build_harness("root", pkg="./cmd/c19")
     def once(sd):
